@@ -421,6 +421,16 @@ func (w *world) randomRefreshAnswer(rng *mrand.Rand) *tokenAnswer {
 	case k == 9:
 		return &tokenAnswer{kind: []string{"500", "malformed", "neterr", "invalid_client"}[rng.Intn(4)]}
 	case k == 10:
+		if rng.Intn(2) == 0 {
+			// no ID token, and an access token that is itself a JWT signed with the provider's key for this client and user (as
+			// several providers issue them): it is not an ID token, nothing may be forwarded on its strength
+			o := w.randomTokOpts(rng, true)
+			if rng.Intn(2) == 0 {
+				o.extra = M{"aud": []string{"cid", "https://api.example.com"}}
+			}
+			T.stat("handler.refresh.no-id-token-jwt-access-token")
+			return &tokenAnswer{kind: "noidtoken", access: w.mintWith(o, rng).raw}
+		}
 		return &tokenAnswer{kind: "noidtoken"}
 	default:
 		o := w.randomTokOpts(rng, true)
@@ -1463,6 +1473,10 @@ func (w *world) refreshSweep(kind int, rng *mrand.Rand, accept string) {
 	switch kind % 12 {
 	case 0:
 		a = &tokenAnswer{kind: "noidtoken"}
+		if (kind/12)%2 == 1 { // ... but a JWT access token for this client and user
+			a.access = mk(func(o *tokOpts) { o.extra = M{"aud": []string{"cid", "https://api.example.com"}} }).raw
+			T.stat("handler.refresh.no-id-token-jwt-access-token")
+		}
 	case 1:
 		a = &tokenAnswer{kind: "ok", idToken: mk(func(o *tokOpts) { o.email = nil }).raw} // no e-mail claim
 	case 2:
